@@ -8,9 +8,11 @@ PROP = dict(
     mismatch_is_violation=True,
     rule="generated programs (with non-ASCII comments and string literals among the filler lines) over 1-3 files (mutual `use`), 0-5 named functions below <main> placed in random files, "
          "optional recursion (1-3 extra frames) and calls through a lambda (CallFuncObj), call sites in 8 statement forms, "
-         "failing operation of 13 kinds (int/float division and remainder by zero, + * unary- ^ overflow, array read/write "
+         "failing operation of 15 kinds (inside the wrapper generated for an intrinsic used as a function value (array_get, divide_int; "
+         "D92: attributed to the place where the function value is made), int/float division and remainder by zero, + * unary- ^ overflow, array read/write "
          "out of bounds, panic(), ! on option.none / result.err inside the prelude) in 9 statement contexts incl. multi-line "
-         "calls; quick 420 programs / thorough 6000; per program 3 cases: (render) VmError text vs the expected chain rendered "
+         "calls; plus one hard probe: a function frame with 16500 locals (D90: no register fusion beyond 15 bits) failing at a known line; "
+         "quick 420 programs / thorough 6000; per program 3 cases: (render) VmError text vs the expected chain rendered "
          "by the model, (build) the three location tables of the compiled program vs SrcMap.build of the optimized assembly's "
          "annotations, (locs) pc_to_error_location(pc+1) for EVERY instruction vs SrcMap.lookup; distinct = distinct request; "
          "non-trivial = a trace of depth >= 2 or a table with >= 3 runs",
